@@ -4067,8 +4067,9 @@ class Graph(_protocols.GraphProtocol, Sequence[Node], _display.PrettyPrintable):
 
         # 5. Reverse: Reverse the sorted nodes of each subgraph to get the topological order.
         for graph, sorted_nodes in sorted_nodes_by_graph.items():
-            # The graph container ensures all the nodes are unique so we can safely extend
-            graph.extend(reversed(sorted_nodes))
+            # The graph container ensures all the nodes are unique so we can safely extend.
+            # The nodes already belong to the graph: re-link them without naming them again
+            graph._nodes.extend(reversed(sorted_nodes))  # pylint: disable=protected-access
 
     # End of mutation methods
 
